@@ -4,6 +4,7 @@
 import HSModel.Spec
 import HSModel.Proofs.RefineAll
 import HSModel.Proofs.StepLemmas
+import HSModel.Proofs.Valid
 namespace HS.C06
 
 /-- the digest the verdict compares against -/
@@ -183,5 +184,44 @@ theorem concrete_verdict_effect (call : Call) (st : Store) (log : List Eff) (a :
   ⟨w', h1, h2, h4⟩
 
 end
+
+/-- **No invalid object is ever reported as stored, whatever races and faults.** Any number of threads
+    running any calls, any world, every schedule and granularity, any fault plan: a
+    `store_object(pid, data, checksum…, size)` that has returned normally had validation data the
+    content meets — size equal to the true size, checksum equal (lower-cased) to the true digest
+    under the named algorithm. -/
+theorem stored_means_judged_valid_under_every_interleaving (calls : List Call) (w0 : World) (fuel : Nat)
+    (sched : List Nat) (n : Nat) :
+    let cf := (runSchedule fuel { w := w0, ts := calls.map (fun c => TState.fresh (c.prog cfg o)) } sched n).1
+    ∀ (i : Nat) (v : Val) (p : Str) (data : DataArg) (add cks ca : SArg) (sz : IArg),
+      cf.ts[i]? = some (.finished (.ok v)) → calls[i]? = some (.storeObject (.str p) data add cks ca sz) →
+      JudgedValid cfg o data add cks ca sz := by
+  intro cf i v p data add cks ca sz hi hc
+  have h0 : SafeConf (fun _ => True) (fun _ _ => True) (fun _ => True) (fun i => validPost cfg o calls[i]?)
+      { w := w0, ts := calls.map (fun c => TState.fresh (c.prog cfg o)) } := by
+    refine ⟨trivial, ?_⟩
+    intro j t hj
+    simp only at hj
+    rw [List.getElem?_map] at hj
+    cases hcj : calls[j]? with
+    | none => rw [hcj] at hj; cases hj
+    | some c =>
+      rw [hcj] at hj; cases hj
+      have key : Prog.Safe (fun _ => True) (fun _ _ => True) (validPost cfg o (some c))
+          (c.prog cfg o : Prog (Except Exc Val)) := by
+        cases c with
+        | storeObject pp d a c' ca' s =>
+          cases pp with
+          | str q => exact Prog.safe_of_allEvR _ (storeObject_valid cfg o q d a c' ca' s)
+          | _ => exact Prog.safe_of_allEv _ (Prog.allEv_true _)
+        | _ => exact Prog.safe_of_allEv _ (Prog.allEv_true _)
+      show Prog.Safe _ _ (validPost cfg o calls[j]?) _
+      rw [hcj]; exact key
+  have hfin := safe_schedule (P := fun _ => True) (A := fun _ _ => True) (I := fun _ => True)
+    (fun _ _ _ _ => trivial) (fun _ _ _ => trivial) _ fuel sched _ n h0
+  have hq := safe_finished hfin i _ hi
+  rw [hc] at hq
+  exact hq
+
 
 end HS.C06
